@@ -104,6 +104,8 @@ where T: Types
     /// Wraps a `WorkerRequest` with an auto-incrementing seq and sends it to
     /// the FlushWorker.
     fn send_request(&mut self, req: WorkerRequest<T>) -> Result<(), io::Error> {
+        #[cfg(feature = "verif-hooks")]
+        crate::verif_hooks::yield_point("before_send");
         self.sent_seq += 1;
         self.flush_tx
             .send(SeqRequest {
